@@ -61,13 +61,43 @@ let run_mon_cache lines =
   let tr = group_trace cop_of_line cout_of_line lines in
   print_verdict (mon_cache (List.map fst tr) (List.map snd tr))
 
+(* ---------------- codec engine ---------------- *)
+let mem_of_array (a : n array) : n -> n = fun i -> let k = int_of_n i in if k < Array.length a then a.(k) else N0
+let print_res pr = function
+  | Ok a -> out_line ("OK " ^ pr a)
+  | Fail -> out_line "FAIL"
+  | Fault -> out_line "FAULT model-read-out-of-bounds"
+  | OutOfFuel -> out_line "OUTOFFUEL"
+
+let run_codec lines =
+  List.iter (fun l ->
+    (match words l with
+     | ["ENC"; m] -> out_line ("BYTES " ^ tok_of_bytes (to_packet (message_of_tok m)))
+     | ["DEC"; h] ->
+       let p = Array.of_list (bytes_of_tok h) in
+       let len = n_of_int (Array.length p) and fuel = nat_of_int (Array.length p + 1) in
+       print_res tok_of_message (from_packet (mem_of_array p) len fuel)
+     | ["PNAME"; h; off] ->
+       let p = Array.of_list (bytes_of_tok h) in
+       let len = n_of_int (Array.length p) and fuel = nat_of_int (Array.length p + 1) in
+       print_res (fun (nm, o) -> tok_of_bstr nm ^ " " ^ string_of_int (int_of_n o))
+         (parse_name (mem_of_array p) len fuel (n_of_int (int_of_string off)) None)
+     | ["PREC"; h; off] ->
+       let p = Array.of_list (bytes_of_tok h) in
+       let len = n_of_int (Array.length p) and fuel = nat_of_int (Array.length p + 1) in
+       print_res (fun (r, o) -> tok_of_record r ^ " " ^ string_of_int (int_of_n o))
+         (parse_record (mem_of_array p) len fuel (n_of_int (int_of_string off)) default_record)
+     | _ -> failwith ("codec op: " ^ l));
+    out_line ".") lines
+
 (* ---------------- main ---------------- *)
 let engines : (string * (string list -> string list -> unit)) list ref = ref []
 let register name f = engines := (name, f) :: !engines
 
 let () =
   register "cache" (fun _ lines -> run_cache lines);
-  register "mon-cache" (fun _ lines -> run_mon_cache lines)
+  register "mon-cache" (fun _ lines -> run_mon_cache lines);
+  register "codec" (fun _ lines -> run_codec lines)
 
 let flush_script hdr lines =
   match hdr with
